@@ -23,7 +23,7 @@ RULE = ("every ordered pair of the 16 public classes plus {int, float, d-vector,
         "table DOC -> result class/ndarray/bool/float; pair not in DOC with operands of different classes must raise; a "
         "returned None/NotImplemented/identity/foreign-element object is a violation; stated pairs must return the stated "
         "class and the reference value. Non-trivial: different classes, or multi-valued, or subclass-related pair.")
-RULE = RULE + probes.RULE_TEXT + (probes.AUG_TEXT if PROPERTY_ID in probes.AUG_PROPS else "")
+RULE = RULE + probes.RULE_TEXT + (probes.AUG_TEXT if PROPERTY_ID in probes.AUG_PROPS else "") + probes.VARIANT_TEXT
 ASSUMPTIONS = ["ndarray as LEFT operand is dispatched by NumPy and excluded", "spatial-vector * int (vector on the left) is the inherited list repetition: judged as a list operation (own elements repeated), not as arithmetic; int * spatial-vector goes through the class's own __rmul__ and must raise", "same-class cells whose only meaning is the inherited list concatenation/repetition are reported (label same_class_undocumented), not judged",
                "documented pairs outside the statement (tier P3) may raise: recorded under label documented_but_raises, not a violation"]
 
@@ -274,7 +274,7 @@ def valid_elem(kind, a):
 
 
 def check_case(case):
-    if case.get("kind") in ("hist", "aug"):
+    if case.get("kind") in ("hist", "aug", "variant"):
         return probes.run(case, PROPERTY_ID)
     op, lk, rk = case["op"], case["L"], case["R"]
     nl, nr = case["nl"], case["nr"]
@@ -464,7 +464,7 @@ def s_cells():
 
 
 def classify(case):
-    if case.get("kind") in ("hist", "aug"):
+    if case.get("kind") in ("hist", "aug", "variant"):
         return probes.classify(case)
     lk, rk, op = case["L"], case["R"], case["op"]
     spec = doc(op, lk, rk)
